@@ -6,6 +6,19 @@ ids=[p['id'] for p in props]
 
 # id -> (technique, level text, level note, design ref)
 BUILT={
+"C16": ("proptest over disconnect scenarios (task mode x concurrent clients x endpoint x HTTP/1.1 or HTTP/2 x disconnect point x FIN/RST) on live servers; history invariant over a life-cycle event log",
+        "Harness handlers append Entered/Completed to a sequence-numbered log and a guard object appends Dropped (or Panicked) when the handler future is dropped early; per scenario: every entered handler ends exactly one way exactly once; detached mode: never cancelled, always completed, also over HTTP/2 and for handlers that drop their RequestContext early; cancel-on-disconnect: a handler whose client sent the complete request and left is cancelled within a 2.5 s grace period and never completes; stayers complete and read full correct responses; unfinished requests never enter a handler; a panicking handler fails only its own request; health probe afterwards.",
+        "Sampling of client-side schedules only: tokio's scheduler and kernel socket timing are not controlled, so a violation needing one specific interleaving may be missed; cancellation is judged after a grace period by further progress, never by latency.",
+        "DESIGN.md section 4 C16"),
+"C17": ("proptest over shutdown scenarios (connections in generated states at the moment close() is called, release delays after close, waiters, both modes, HTTP/1.1 and HTTP/2); event-order invariant",
+        "close() is called while connections are in generated states (in-flight stayer/leaver, half-read 4 MiB response, idle keep-alive, half-sent request); handlers are released 0-120 ms after close() was called. Stayers must read complete correct responses; Completed(id) of every in-flight handler and of every detached handler must precede CloseReturned in the log; connect() to the old address must be refused afterwards; close() and 1-3 wait_for_shutdown() futures must resolve to the same result.",
+        "Sampling of schedules; liveness only within a 30 s bound.",
+        "DESIGN.md section 4 C17"),
+"C18": ("proptest over batches of hostile connection scripts on raw TCP (random bytes, truncation at generated/every offset, 22 constructed-malformed requests, oversized requests, HTTP/2 garbage, TLS hello, panicking handler) with interleaved health probes; strict response grammar oracle",
+        "Everything the server sends back must parse under the harness' own strict HTTP/1.1 response grammar; requests malformed by the grammar must be answered >= 400 (or not at all); a health request on a fresh connection during and after every batch must return 200 'ok'; every truncation offset of four fixed valid requests is enumerated (every 7th in quick) with FIN and RST; the server must close cleanly at the end.",
+        "No coverage-guided fuzzing here (server state must persist across inputs); spellings lenient HTTP parsers accept are not required to be refused; shutdown liveness reported as inconclusive.",
+        "DESIGN.md section 4 C18"),
+
 "C15": ("proptest over (collection size, client limit, order, later-page limit) full scans against a live keyset-paginated endpoint; concatenation/size/token/termination oracle",
         "Each case follows next_page tokens from the first page to the end over real HTTP: the concatenation of pages must equal the collection in order, every page must hold at most the effective limit (client limit capped at 10000, default 100), a token must be present exactly when the page is non-empty, and the scan must finish within ceil(n/l)+1 requests (one more is reported as non-termination, not waited for).",
         "Sampling over n in 0..1200 densely plus 5000..25000 for large limits; the collection is static.",
